@@ -506,7 +506,14 @@ impl<A: Zeroize + Bytes + Default, PM: traits::ProtectMode> Lock<A, PM>
 {
     fn mlock(mut self) -> Result<Protected<A, PM, traits::Locked>, std::io::Error> {
         self.swap_some_or_err(|old| {
-            dryoc_mlock(old.a.as_slice())?;
+            if let Err(err) = dryoc_mlock(old.a.as_slice()) {
+                // a failed mlock can leave the pages marked as locked (e.g. on a
+                // no-access region the kernel sets the flag before it fails to
+                // fault the pages in): undo it so nothing stays locked behind
+                // the caller's back
+                dryoc_munlock(old.a.as_slice()).ok();
+                return Err(err);
+            }
             // update internal state
             old.lm = int::LockMode::Locked;
             Ok(Protected::<A, PM, traits::Locked>::new())
